@@ -62,33 +62,15 @@ def run(ctx):
         ptr = [e for e in aca.emits if e["kind"] == "bytes" and e["src"][0] == "int" and e["src"][2] == 2]
         okret = False
         if len(ptr) == 1 and ptr[0]["src"][1] == "BE":
-            later = mu.reachable_from(ca, ca.blocks[ptr[0]["bi"]]["term"]["target"])
-            if any(e["bi"] in later for e in aca.emits):
-                ptr = []
-        if len(ptr) == 1 and ptr[0]["src"][1] == "BE":
-            # from the pointer write block, the only way on is to the function's return (no path back to the loop head)
+            # on the paths the analysis follows from the pointer write (its own partition: inside a closure that reports "the
+            # rest is taken care of", the caller's test of that answer is decided) nothing more is written and the loop is left
+            pbi = ptr[0]["bi"]
+            if getattr(aca, "node_edges", None):
+                after = aca.blocks_reachable(pbi) - {pbi}
+            else:
+                after = mu.reachable_from(ca, ca.blocks[pbi]["term"]["target"])
             lps, irr, dom = loops.natural_loops(ca)
-            if len(lps) == 1:
-                h, info = list(lps.items())[0]
-                succ = mu.reachable_from(ca, ptr[0]["bi"]) - {ptr[0]["bi"]}
-                ok_edge = [x for x in succ if x in info["body"]]
-                # blocks of the `?` error path stay in the set; what matters is that the Continue edge leaves the loop
-                t = ca.blocks[ptr[0]["bi"]]["term"]
-                nxt = t.get("target")
-                seen = set()
-                cur = nxt
-                for _ in range(8):
-                    tt = ca.blocks[cur]["term"]
-                    if tt["t"] == "call" and tt["callee"] and tt["callee"]["def"].endswith("Try>::branch"):
-                        cur = tt["target"]
-                        continue
-                    if tt["t"] == "switch":
-                        cont = [tg for v, tg in tt["arms"] if int(v) == 0]
-                        cur = cont[0] if cont else tt["otherwise"]
-                        continue
-                    break
-                after = mu.reachable_from(ca, cur)
-                okret = h not in after
+            okret = not any(e["bi"] in after for e in aca.emits) and not any(h in after for h in lps) and len(lps) == 1
         if okret:
             report.nontriv("compress_append shape")
             report.sample({"fn": ca.qname, "per_label": "pointer(u16 BE) then return | length byte + label bytes", "tail": "root byte"})
